@@ -136,8 +136,11 @@ def gen_box(rng, am):
     if rng.random() < 0.2:
         # box origin on a lattice plane or a hair (rounding noise .. 5e-5 of a cell) off it, on either side: where the
         # whole-lattice translation of rotate (rint / floor of origin . inv(vects)) is decided
-        n = np.array([rng.randint(-2, 2) + rng.choice([0.0, 0.0, 1e-13, -1e-13, 1e-9, -1e-9, 1e-6, -1e-6, 5e-5, -5e-5, 0.5])
-                      for _ in range(3)])
+        # (the offsets are no simple fraction of a rung 1e-4 .. 1e-8 of a tolerance ladder: an atom on a cell face is
+        # then a small rational multiple of the offset away from a face of the new cell, and at exactly one rung from
+        # it the float comparison |s| <= atol is decided by rounding noise)
+        n = np.array([rng.randint(-2, 2) + rng.choice([0.0, 0.0, 1.3e-13, -1.3e-13, 1.7e-9, -1.7e-9, 1.3e-6, -1.3e-6,
+                                                        3.7e-5, -3.7e-5, 0.5]) for _ in range(3)])
         box = am.Box(vects=box.vects, origin=n @ box.vects)
     return box, fam
 
@@ -180,7 +183,8 @@ def _gen_box(rng, am):
 
 def gen_system(rng, am, fam_box=None, extra=(), far=False):
     """random cell + 1-4 atoms on the 1/8 grid (faces included); `extra`: further atoms given by exact relative
-    coordinates (Fractions), appended when they are at least 1e-3 (relative) away from every other atom; `far`: a
+    coordinates (Fractions) or a function box -> such a list, appended when they are at least 1e-3 (relative) away from
+    every other atom; `far`: a
     coordinate 0 is stored as 1.0 (the atom listed on the far face / edge / corner) with probability 1/2."""
     np = _np()
     box, fam = fam_box or gen_box(rng, am)
@@ -191,7 +195,7 @@ def gen_system(rng, am, fam_box=None, extra=(), far=False):
         if s not in seen:
             seen.add(s)
             spos.append(s)
-    for e in extra:
+    for e in (extra(box) if callable(extra) else extra):
         if all(max(circ(e[j], t[j]) for j in range(3)) >= 1e-3 for t in spos):
             spos.append(tuple(e))
     if far:
@@ -225,26 +229,32 @@ DELTAS = [Fraction(1, 10 ** 7), Fraction(3, 10 ** 6), Fraction(5, 10 ** 6), Frac
 LADDER = [Fraction(105, 10 ** 6), Fraction(1005, 10 ** 8)]
 
 
-def near_face_spos(rng, U, delta=None, below=None):
-    """exact relative coordinates, in the ORIGINAL cell, of an atom that sits a hair off (not on) a face, an edge or a
-    corner of the NEW cell U.vects - on either side of it (`below`: just below an upper face; `delta`: how far)."""
+def near_face_spos(rng, U, box, delta=None, below=None):
+    """exact relative coordinates, in the ORIGINAL cell `box`, of an atom that sits a hair off (not on) a face, an edge
+    or a corner of the NEW cell - the cell U.vects at the Cartesian origin, where rotate cuts it out - on either side of
+    it (`below`: just below an upper face; `delta`: how far)."""
     sp = [Fraction(rng.randint(1, 7), 8) for _ in range(3)]
     for c in rng.sample(range(3), rng.choice([1, 1, 1, 2, 3]) if delta is None else 1):
         dl = delta if delta is not None else rng.choice(DELTAS)
         sp[c] = (1 - dl) if (below or (below is None and rng.random() < 0.5)) else dl
-    s = [sum(sp[i] * U[i][j] for i in range(3)) for j in range(3)]
+    # position in units of the original cell vectors about the Cartesian origin, then relative to the box origin
+    Vi = inv3([[Fraction(x) for x in row] for row in box.vects.tolist()])
+    orel = vecmat([Fraction(x) for x in box.origin.tolist()], Vi)
+    s = [sum(sp[i] * U[i][j] for i in range(3)) - orel[j] for j in range(3)]
     return tuple(frac_mod1(x) for x in s)
 
 
 def near_face_atoms(rng, U):
-    """1-3 atoms a hair off faces of the new cell; one time in four the cooperating set that defeats every rung of the
-    tolerance ladder at once (each just below an upper face, one per band) plus possibly a further one."""
-    if rng.random() < 0.25:
-        out = [near_face_spos(rng, U, delta=dl, below=True) for dl in LADDER]
-        if rng.random() < 0.5:
-            out.append(near_face_spos(rng, U))
-        return out
-    return [near_face_spos(rng, U) for _ in range(rng.choice([1, 1, 2, 3]))]
+    """box -> 1-3 atoms a hair off faces of the new cell; one time in four the cooperating set that defeats every rung
+    of the tolerance ladder at once (each just below an upper face, one per band) plus possibly a further one."""
+    def make(box):
+        if rng.random() < 0.25:
+            out = [near_face_spos(rng, U, box, delta=dl, below=True) for dl in LADDER]
+            if rng.random() < 0.5:
+                out.append(near_face_spos(rng, U, box))
+            return out
+        return [near_face_spos(rng, U, box) for _ in range(rng.choice([1, 1, 2, 3]))]
+    return make
 
 
 NEXTRA = 14
@@ -383,13 +393,15 @@ def gen_case_U(rng, am, it, maxdet):
         # 1e-13 .. 5e-5 of a cell) together with atoms on / a hair below the far face of the cell along the same axis
         j = rng.randrange(3)
         ex = []
-        for dl in (Fraction(0), rng.choice([Fraction(5, 10 ** 8), Fraction(3, 10 ** 6), Fraction(5, 10 ** 5)])):
+        # (distances that do not add up with the origin offsets below to 1e-4 .. 1e-8: exactly on a rung of a tolerance
+        # ladder the two sides of a face are told apart by rounding noise, and a one-rung `tol` cannot recover)
+        for dl in (Fraction(0), rng.choice([Fraction(53, 10 ** 9), Fraction(31, 10 ** 7), Fraction(43, 10 ** 6)])):
             sp = [Fraction(rng.randint(0, 7), 8) for _ in range(3)]
             sp[j] = 1 - dl
             ex.append(tuple(sp))
         sysm, fam, spos = gen_system(rng, am, extra=ex, far=True)
         n = [float(rng.randint(-2, 2)) for _ in range(3)]
-        n[j] -= rng.choice([1e-13, 1e-9, 1e-6, 5e-5])
+        n[j] -= rng.choice([1.3e-13, 1.7e-9, 1.3e-6, 3.7e-5])
         sysm.box_set(vects=sysm.box.vects, origin=_np().array(n) @ sysm.box.vects, scale=True)
         return sysm, fam + '+origin-below-plane', spos, U, d
     extra = near_face_atoms(rng, U) if it % 3 == 0 else []
@@ -597,7 +609,18 @@ def _corr_rotate(ctx, am, sysm, fam, U, d, kind, arg, form):
     rp = {'op': 'rotate', 'line': line, 'U': U, 'uvws': np.asarray(arg, dtype=float).tolist(), 'form': form}
 
     def on_face(rel):
-        return any(min(abs(float(x)), abs(float(x) - 1.0)) < 1e-6 for x in rel)
+        # within the reach of the first rung of the tolerance ladder (1e-4) of a face of the new cell
+        return any(min(abs(float(x)), abs(float(x) - 1.0)) < 1.2e-4 for x in rel)
+
+    if kind == 'rotate-outside':
+        # the whole-lattice translation of the supercell is rint(origin . inv(vects)): within rounding of a half-integer
+        # the float code and exact arithmetic may translate by different lattice vectors; for atoms inside the box the
+        # result is the same (rep_in_bounds covers offsets in (-1,2)), for an atom outside it which images the
+        # supercell holds depends on that choice: not comparable
+        orel = np.linalg.solve(sysm.box.vects.T, sysm.box.origin)
+        if np.abs(np.abs(orel - np.floor(orel)) - 0.5).min() < 1e-9:
+            ctx.extra['rotate_outside_half_origin_exempt'] = ctx.extra.get('rotate_outside_half_origin_exempt', 0) + 1
+            return
 
     try:
         new, T = sysm.rotate(arg, return_transform=True)
@@ -869,7 +892,8 @@ def search(ctx, broken):
         sysm, fam, spos, U, d = gen_case_U(rng, am, it, ctx.n(5, 8))
         arg, form, accepted = gen_uvws_form(rng, U) if it >= len(FIXED_U) else (U, 'int-list', True)
         # the documented `tol` option (float or list): any ladder must give the same crystal
-        tol = rng.choice([None] * 8 + [1e-5, 1e-8, [1e-6, 1e-8], (1e-4,), [1e-3, 1e-5]])
+        # (values that are not 1e-k: the generated face distances are never exactly one rung)
+        tol = rng.choice([None] * 8 + [2.3e-5, 7e-9, [1.7e-6, 1.1e-8], (1.3e-4,), [1.1e-3, 2.3e-5]])
         ctx.stats.case('oracle:rotate', (fam, repr(np.asarray(arg).tolist()), tuple(spos), repr(tol)))
         _oracle_rotate(ctx, am, sysm, fam, spos, U, d, arg, form, accepted, 'rotate', tol=tol)
     # hexagonal cells with 4-index vectors
